@@ -140,8 +140,9 @@ def run():
         # a file with an explicit @fail ends its process, so each needs one of its own: every single-block one, and a
         # seeded sample of the others (all kinds/variants still meet an @fail neighbour across seeds)
         nstop_all = len(stops)
-        stops = [c for c in stops if len(c["file"]) == 1] + [c for c in stops if len(c["file"]) > 1][:400 if thorough else 36]
-        per = PERDIR if len(quiet) >= PERDIR * len(stops) else max(1, len(quiet) // max(1, len(stops)))
+        stops = [c for c in stops if len(c["file"]) == 1] + [c for c in stops if len(c["file"]) > 1][:200 if thorough else 36]
+        perdir = PERDIR * 3 if thorough else PERDIR
+        per = perdir if len(quiet) >= perdir * len(stops) else max(1, len(quiet) // max(1, len(stops)))
         dirs = []
         while quiet or stops:
             d, quiet = quiet[:per], quiet[per:]
